@@ -23,6 +23,7 @@ from props import mini
 
 sys.path.insert(0, os.path.join(C.VERIF, "tools"))
 import c02_gen  # noqa: E402
+import c02_local as LOC  # noqa: E402
 
 ID = "C02"
 LEVEL = "exploration"
@@ -58,7 +59,10 @@ SLOW = 8.0          # corpus programs slower than this at -Q0 are left out of th
 
 
 def generate():
-    return c02_gen.generate()
+    G = c02_gen.generate()
+    G["peep"] = c02_gen.generate_peep()
+    G["cfold_guards"] = c02_gen.generate_cfold_guards()
+    return G
 
 
 # ====================================================================== running programs
@@ -171,7 +175,7 @@ class OptModel:
         self.exe = C.build_ocaml("optm", [ex + "/opt_model.mli", ex + "/opt_model.ml"], C.COQ + "/Opt/driver.ml")
 
     def query(self, seqs):
-        rc, out, err = C.run([self.exe], input="".join(" ".join(s) + "\n" for s in seqs), timeout=300)
+        rc, out, err = C.run([self.exe], input="".join(" ".join(["opts"] + list(s)) + "\n" for s in seqs), timeout=300)
         if rc != 0:
             raise RuntimeError("option model driver failed: " + err[-500:])
         res = []
@@ -724,6 +728,145 @@ def differential(rep, tier, exe, G, model):
                 samples=[{"seed": p["seed"], "size": p["size"], "nodes": p["nodes"]} for p in progs[:6]])
 
 
+# ====================================================================== tie (b): Fold / Peep models vs the isolated passes
+
+LOCAL_CFGS = [["-Q0", "-Qcfold"], ["-Q0", "-Qpeep"], ["-Q0", "-Qcfold", "-Qpeep"], ["-Q0", "-Qcfold", "-Qffold", "-Qpeep"],
+              ["-Q0", "-Qffold", "-Qpeep"]]
+SWAP_KEYS = {"SIntPlus": "peep:additive-operand-order", "SIntMinus": "peep:additive-operand-order",
+             "BoolNot": "peep:negate-operand-order"}
+
+
+def segments(out):
+    """output of a generated builtin-level program, split per call t<k>(...)"""
+    segs, cur = [], []
+    for line in out.splitlines():
+        cur.append(line)
+        m = re.match(r"(t\d+) ", line)
+        if m and not line.startswith("The file"):
+            segs.append((m.group(1), "\n".join(cur)))
+            cur = []
+    if cur:
+        segs.append(("tail", "\n".join(cur)))
+    return segs
+
+
+def check_local(rep, exe, model, tier):
+    """Tie (b) and, on the same programs, the property itself for the two local passes."""
+    rng = C.rng("c02-local")
+    rc, out, err = C.run([model.exe], input="fragops\nfxops\n", timeout=60)
+    frag_ops, fx_ops = [set(l.split()) for l in out.splitlines()[:2]]
+    states = model.query(LOCAL_CFGS)
+    nprog = 24 if tier == "quick" else 240
+    progs = [LOC.gen_program(rng, 8, rng.choice([2, 3, 3, 4])) for _ in range(nprog)]
+    base = C.scratch("c02loc")
+    stats = collections.Counter()
+    findings = []          # (kind, payload)
+
+    def one(i):
+        src, names = progs[i]
+        d = "%s/p%d" % (base, i)
+        os.makedirs(d)
+        with open(d + "/p.as", "w") as f:
+            f.write(src)
+        res = {"i": i, "mismatch": [], "behaviour": [], "changed": 0, "fragments": 0, "swaps": collections.Counter()}
+        units, outs = {}, {}
+        for c in [["-Q0"]] + LOCAL_CFGS:
+            k = cfg_str(c)
+            rc, out, err = C.run(C.aldor_base_args(exe) + c + ["-Ffm=p.fm", "-Fao=p.ao", "p.as"], cwd=d, env=C.aldor_env(),
+                                 timeout=T_RUN, input="")
+            if rc != 0 or not os.path.exists(d + "/p.fm"):
+                res["compile_error"] = (k, out[-500:])
+                return res
+            units[k] = LOC.Unit(open(d + "/p.fm", errors="replace").read())
+            rc, out, err = C.run(C.aldor_base_args(exe) + ["-laldor", "-ginterp", "p.ao"], cwd=d, env=C.aldor_env(),
+                                 timeout=T_RUN, input="")
+            outs[k] = ("ok" if rc == 0 else "fail", "\n".join(l for l in canon(out).splitlines() if "will now be out of date" not in l))
+            os.remove(d + "/p.fm")
+        m = LOC.Model(model.exe)
+        try:
+            for c, st in zip(LOCAL_CFGS, states):
+                k = cfg_str(c)
+                tbl = dict(st["tbl"])
+                got, swaps = LOC.model_unit(m, units["-Q0"], names, st["trace"], tbl["cfold"] != "0", tbl["ffold"] != "0",
+                                            frag_ops, fx_ops)
+                for n in names:
+                    real = LOC.Unit.parts(units[k].progs[n])[3][1:]
+                    before = LOC.Unit.parts(units["-Q0"].progs[n])[3][1:]
+                    res["changed"] += int(real != before)
+                    if real != got[n]:
+                        pair = next(((LOC.show(a), LOC.show(b)) for a, b in zip(real, got[n]) if a != b), ("?", "?"))
+                        res["mismatch"].append({"config": c, "function": n, "real": pair[0][:600], "model": pair[1][:600]})
+                    for root, txt in swaps.get(n, []):
+                        res["swaps"][SWAP_KEYS.get(root, "peep:other-operand-order")] += 1
+                # behaviour
+                if outs[k] != outs["-Q0"]:
+                    sa, sb = segments(outs["-Q0"][1]), segments(outs[k][1])
+                    bad = sorted({a[0] for a, b in zip(sa, sb) if a != b} | ({"length"} if len(sa) != len(sb) else set()))
+                    for fn in bad:
+                        kinds = sorted({SWAP_KEYS.get(root, "peep:other-operand-order") for root, _ in swaps.get(fn, [])})
+                        res["behaviour"].append({"config": c, "function": fn, "explained_by": kinds,
+                                                 "q0": next((a[1] for a in sa if a[0] == fn), "")[:400],
+                                                 "observed": next((b[1] for b in sb if b[0] == fn), "")[:400]})
+            res["fragments"] = m.calls
+        finally:
+            m.close()
+        shutil.rmtree(d, ignore_errors=True)
+        return res
+    with concurrent.futures.ThreadPoolExecutor(C.NCPU) as ex:
+        results = list(ex.map(one, range(nprog)))
+    mism, beh, swapc = [], [], collections.Counter()
+    for r in results:
+        if "compile_error" in r:
+            stats["compile_errors"] += 1
+            continue
+        stats["programs"] += 1
+        stats["changed_functions"] += r["changed"]
+        stats["fragments"] += r["fragments"]
+        swapc.update(r["swaps"])
+        for x in r["mismatch"]:
+            mism.append((r["i"], x))
+        for x in r["behaviour"]:
+            beh.append((r["i"], x))
+    # the property itself on these programs
+    reported = set()
+    for i, x in beh:
+        src = progs[i][0]
+        fn_src = next((l for l in src.splitlines() if l.startswith(x["function"] + "(")), "")
+        if x["explained_by"]:
+            for key in x["explained_by"]:
+                if key in reported:
+                    continue
+                reported.add(key)
+                rep.violation("the peephole pass exchanges the evaluation order of two operands (%s): a generated builtin-level "
+                              "function prints differently at `%s` than at -Q0" % (key, cfg_str(x["config"])),
+                              {"how_to_replay": "compile src with <config> and with -Q0 (aldor <base args> <cfg> -Fao=p.ao p.as; "
+                                                "aldor <base args> -laldor -ginterp p.ao) and compare the lines of the function",
+                               "lib": "aldor", "src": src, "config": x["config"], "function": fn_src, "q0_lines": x["q0"],
+                               "observed_lines": x["observed"], "model": "Peep.peep reports ok = false (swap_ok fails) at this node"},
+                              key=key)
+        else:
+            h = hashlib.sha1(fn_src.encode()).hexdigest()[:8]
+            key = "local:%s:%s" % (h, cfg_str(x["config"]))
+            if key not in reported:
+                reported.add(key)
+                rep.violation("a generated builtin-level function prints differently at `%s` than at -Q0 (no operand exchange "
+                              "flagged by the model)" % cfg_str(x["config"]),
+                              {"lib": "aldor", "src": src, "config": x["config"], "function": fn_src, "q0_lines": x["q0"],
+                               "observed_lines": x["observed"]}, key=key)
+    if mism:
+        i, x = mism[0]
+        rep.violation("correspondence Fold/Peep model vs the isolated pass no longer checks: function %s at `%s` (%d functions differ)"
+                      % (x["function"], cfg_str(x["config"]), len(mism)),
+                      {"src": progs[i][0], "first": x, "all": [m for _, m in mism[:10]],
+                       "how_to_replay": "aldor <base args> <config> -Ffm=p.fm p.as ; compare the Seq of the function with the model"},
+                      no_input=True)
+    rep.add_cov(local_programs=stats["programs"], local_compile_errors=stats["compile_errors"],
+                local_functions_changed_by_real_pass=stats["changed_functions"], local_model_pass_calls=stats["fragments"],
+                local_tie_mismatches=len(mism), local_behaviour_differences=len(beh), local_unsafe_swaps_flagged=dict(swapc),
+                local_configs=[cfg_str(c) for c in LOCAL_CFGS])
+    rep.cov["traces_validated_against_impl"] = rep.cov.get("traces_validated_against_impl", 0) + stats["programs"] * len(LOCAL_CFGS)
+
+
 # ====================================================================== entry
 
 def run(rep, tier):
@@ -744,6 +887,11 @@ def run(rep, tier):
         rep.violation("the option model does not build against the regenerated table (coq/Gen/OptCtl.v): configurations "
                       "are taken at face value", {"translator": {k: G[k] for k in ("stages", "steps", "level_shape")}}, no_input=True)
         model = FallbackModel(G)
+    if isinstance(model, OptModel):
+        try:
+            check_local(rep, exe, model, tier)
+        except C.BuildError as e:
+            rep.violation("tie of the Fold/Peep models could not run: %s" % str(e)[:200], {"error": str(e)}, no_input=True)
     differential(rep, tier, exe, G, model)
     rep.assume("the interpreter run of a saved .ao (`aldor -l<lib> -ginterp p.ao`) executes the FOAM the compile step wrote "
                "(compSavedFile does not call optimizeFoam)",
